@@ -77,6 +77,9 @@ structure SecLaws (S : SecStore) : Prop where
     (∃ s', S.rd s a = (none, s') ∧ S.Inv s' ∧ ∀ b, S.valid b = true → (S.rd s' b).1 = (S.rd s b).1) ∧
     (∃ s', S.wr s a d = (false, s') ∧ S.Inv s' ∧ ∀ b, S.valid b = true → (S.rd s' b).1 = (S.rd s b).1)
 
+/-- content of a freshly created disk: every sector is zeros -/
+def zeros (unit : CHS → Nat) : CHS → List Nat := fun a => List.replicate (unit a) 0
+
 /-- the image is usable and every valid sector `a` reads as `m a` -/
 def Shows (S : SecStore) (s : S.St) (m : CHS → List Nat) : Prop :=
   S.Inv s ∧ ∀ a, S.valid a = true → (S.rd s a).1 = some (m a)
